@@ -516,7 +516,7 @@ SECTION_HEADER_RE = re.compile(r"^\[\[?([^\[\]]+)\]\]?\s*(?:[#;].*)?$")
 def _parse_current_version_default_pattern(raw_cfg: RawConfig, raw_cfg_text: str) -> str:
     is_config_section = False
     for line in raw_cfg_text.splitlines():
-        if is_config_section and re.match(r"current_version\s*[=:]", line):
+        if is_config_section and re.match(r"\s*current_version\s*[=:]", line):
             # NOTE: values from .cfg files may still carry their quotes here.
             #   Only the bare version is replaced, the quoting of the line is kept.
             current_version: str = raw_cfg['current_version'].strip("'\" ")
